@@ -39,6 +39,9 @@ class PolynomialShapeOnly(Contract):
 
     def apply(self, ex, args, kw, node):
         v = args[0]
+        from contracts.shapefn import MovedRaw, rewrap
+        if isinstance(v, MovedRaw) and len(args) == 1 and "names" in kw and set(kw) <= {"names", "allocation"}:
+            return rewrap(ex, v, kw["names"], node, kw.get("allocation"))
         if kw or len(args) != 1:
             raise U("polynomial(...) with keywords at a call site", node)
         if isinstance(v, Poly):
